@@ -2,7 +2,7 @@
    invocations/casts.rs::build_downcast (overflow above / below / both, bounds of either sign, wide and
    far-from-zero ranges). *)
 From Libfuncs Require Import Tactics Stmt.
-From GenC03 Require Import W_p_downcast_both W_p_downcast_both_pos W_p_downcast_both_neg W_p_downcast_above_only W_p_downcast_above_only_neg_bound W_p_downcast_below_only W_p_downcast_below_only_zero W_p_downcast_below_only_pos W_p_downcast_wide_both W_p_downcast_full_128_to_half W_p_downcast_far_both.
+From GenC03 Require Import W_p_downcast_both W_p_downcast_both_pos W_p_downcast_both_neg W_p_downcast_above_only W_p_downcast_above_only_neg_bound W_p_downcast_below_only W_p_downcast_below_only_zero W_p_downcast_below_only_pos W_p_downcast_wide_both W_p_downcast_full_128_to_half W_p_downcast_far_both W_p_downcast_u128_to_upper_2p128_lower_pos W_p_downcast_u128_to_top_singleton W_p_downcast_u128_to_lower_one W_p_downcast_shifted128_above_upper_2p128_plus1 W_p_downcast_around_2p128_both W_p_downcast_neg_to_upper_zero W_p_downcast_neg_to_upper_one W_p_downcast_to_lower_one W_p_downcast_to_singleton_zero W_p_downcast_full_signed_128_to_nonneg.
 
 Ltac cast_tac ps :=
   intros m pb s0 s' v Hm Hpc Hr rc Hv Ev Hrc Hrck;
@@ -64,4 +64,54 @@ Definition paths_p_downcast_far_both := Eval vm_compute in
   match symex code_p_downcast_far_both 200 [] (sinit entry_p_downcast_far_both) with Some p => p | None => [] end.
 Theorem p_downcast_far_both_sound : downcast_sound 1606938044258990275541962092341162602522202993782792835301376 1606938044258990275541962092341162602522202993782792835302376 1606938044258990275541962092341162602522202993782792835301386 1606938044258990275541962092341162602522202993782792835301396 2 1 code_p_downcast_far_both entry_p_downcast_far_both.
 Proof. time "p_downcast_far_both" (cast_tac paths_p_downcast_far_both). Qed.
+
+Definition paths_p_downcast_u128_to_upper_2p128_lower_pos := Eval vm_compute in
+  match symex code_p_downcast_u128_to_upper_2p128_lower_pos 200 [] (sinit entry_p_downcast_u128_to_upper_2p128_lower_pos) with Some p => p | None => [] end.
+Theorem p_downcast_u128_to_upper_2p128_lower_pos_sound : downcast_sound 0 340282366920938463463374607431768211455 340282366920938463463374607431768210456 340282366920938463463374607431768211455 1 1 code_p_downcast_u128_to_upper_2p128_lower_pos entry_p_downcast_u128_to_upper_2p128_lower_pos.
+Proof. time "p_downcast_u128_to_upper_2p128_lower_pos" (cast_tac paths_p_downcast_u128_to_upper_2p128_lower_pos). Qed.
+
+Definition paths_p_downcast_u128_to_top_singleton := Eval vm_compute in
+  match symex code_p_downcast_u128_to_top_singleton 200 [] (sinit entry_p_downcast_u128_to_top_singleton) with Some p => p | None => [] end.
+Theorem p_downcast_u128_to_top_singleton_sound : downcast_sound 0 340282366920938463463374607431768211455 340282366920938463463374607431768211455 340282366920938463463374607431768211455 1 1 code_p_downcast_u128_to_top_singleton entry_p_downcast_u128_to_top_singleton.
+Proof. time "p_downcast_u128_to_top_singleton" (cast_tac paths_p_downcast_u128_to_top_singleton). Qed.
+
+Definition paths_p_downcast_u128_to_lower_one := Eval vm_compute in
+  match symex code_p_downcast_u128_to_lower_one 200 [] (sinit entry_p_downcast_u128_to_lower_one) with Some p => p | None => [] end.
+Theorem p_downcast_u128_to_lower_one_sound : downcast_sound 0 340282366920938463463374607431768211455 1 340282366920938463463374607431768211455 1 1 code_p_downcast_u128_to_lower_one entry_p_downcast_u128_to_lower_one.
+Proof. time "p_downcast_u128_to_lower_one" (cast_tac paths_p_downcast_u128_to_lower_one). Qed.
+
+Definition paths_p_downcast_shifted128_above_upper_2p128_plus1 := Eval vm_compute in
+  match symex code_p_downcast_shifted128_above_upper_2p128_plus1 200 [] (sinit entry_p_downcast_shifted128_above_upper_2p128_plus1) with Some p => p | None => [] end.
+Theorem p_downcast_shifted128_above_upper_2p128_plus1_sound : downcast_sound 1 340282366920938463463374607431768211456 1 340282366920938463463374607431768211454 1 1 code_p_downcast_shifted128_above_upper_2p128_plus1 entry_p_downcast_shifted128_above_upper_2p128_plus1.
+Proof. time "p_downcast_shifted128_above_upper_2p128_plus1" (cast_tac paths_p_downcast_shifted128_above_upper_2p128_plus1). Qed.
+
+Definition paths_p_downcast_around_2p128_both := Eval vm_compute in
+  match symex code_p_downcast_around_2p128_both 200 [] (sinit entry_p_downcast_around_2p128_both) with Some p => p | None => [] end.
+Theorem p_downcast_around_2p128_both_sound : downcast_sound 340282366920938463463374607431768211451 340282366920938463463374607431768211461 340282366920938463463374607431768211454 340282366920938463463374607431768211457 2 1 code_p_downcast_around_2p128_both entry_p_downcast_around_2p128_both.
+Proof. time "p_downcast_around_2p128_both" (cast_tac paths_p_downcast_around_2p128_both). Qed.
+
+Definition paths_p_downcast_neg_to_upper_zero := Eval vm_compute in
+  match symex code_p_downcast_neg_to_upper_zero 200 [] (sinit entry_p_downcast_neg_to_upper_zero) with Some p => p | None => [] end.
+Theorem p_downcast_neg_to_upper_zero_sound : downcast_sound (-10) 10 (-10) (-1) 1 1 code_p_downcast_neg_to_upper_zero entry_p_downcast_neg_to_upper_zero.
+Proof. time "p_downcast_neg_to_upper_zero" (cast_tac paths_p_downcast_neg_to_upper_zero). Qed.
+
+Definition paths_p_downcast_neg_to_upper_one := Eval vm_compute in
+  match symex code_p_downcast_neg_to_upper_one 200 [] (sinit entry_p_downcast_neg_to_upper_one) with Some p => p | None => [] end.
+Theorem p_downcast_neg_to_upper_one_sound : downcast_sound (-10) 10 (-10) 0 1 1 code_p_downcast_neg_to_upper_one entry_p_downcast_neg_to_upper_one.
+Proof. time "p_downcast_neg_to_upper_one" (cast_tac paths_p_downcast_neg_to_upper_one). Qed.
+
+Definition paths_p_downcast_to_lower_one := Eval vm_compute in
+  match symex code_p_downcast_to_lower_one 200 [] (sinit entry_p_downcast_to_lower_one) with Some p => p | None => [] end.
+Theorem p_downcast_to_lower_one_sound : downcast_sound (-10) 10 1 10 1 1 code_p_downcast_to_lower_one entry_p_downcast_to_lower_one.
+Proof. time "p_downcast_to_lower_one" (cast_tac paths_p_downcast_to_lower_one). Qed.
+
+Definition paths_p_downcast_to_singleton_zero := Eval vm_compute in
+  match symex code_p_downcast_to_singleton_zero 200 [] (sinit entry_p_downcast_to_singleton_zero) with Some p => p | None => [] end.
+Theorem p_downcast_to_singleton_zero_sound : downcast_sound (-10) 10 0 0 2 1 code_p_downcast_to_singleton_zero entry_p_downcast_to_singleton_zero.
+Proof. time "p_downcast_to_singleton_zero" (cast_tac paths_p_downcast_to_singleton_zero). Qed.
+
+Definition paths_p_downcast_full_signed_128_to_nonneg := Eval vm_compute in
+  match symex code_p_downcast_full_signed_128_to_nonneg 200 [] (sinit entry_p_downcast_full_signed_128_to_nonneg) with Some p => p | None => [] end.
+Theorem p_downcast_full_signed_128_to_nonneg_sound : downcast_sound (-170141183460469231731687303715884105728) 170141183460469231731687303715884105727 0 170141183460469231731687303715884105727 1 1 code_p_downcast_full_signed_128_to_nonneg entry_p_downcast_full_signed_128_to_nonneg.
+Proof. time "p_downcast_full_signed_128_to_nonneg" (cast_tac paths_p_downcast_full_signed_128_to_nonneg). Qed.
 
